@@ -302,14 +302,30 @@ func contentKey(tx *transaction.Transaction) string {
 // normScript blanks the only script content that depends on an unseedable
 // random nonce: the shared-transaction-data record the leader writes to NNS.
 func normScript(s []byte) []byte {
-	// every PUSHDATA1 payload longer than 40 bytes (signatures, shared-data
-	// records, executables) is replaced by its length; names and methods stay
+	// every PUSHDATA payload that does not look like a name (domain, e-mail,
+	// method, lower-case hex address) is replaced by its length: signatures,
+	// base64 shared-data records (random nonce inside) and executables
+	nameLike := func(p []byte) bool {
+		if len(p) > 80 {
+			return false
+		}
+		for _, c := range p {
+			if !(c >= 'a' && c <= 'z' || c >= 'A' && c <= 'Z' && len(p) < 24 || c >= '0' && c <= '9' || c == '.' || c == '-' || c == '_' || c == '@') {
+				return false
+			}
+		}
+		return true
+	}
 	out := make([]byte, 0, len(s))
 	for i := 0; i < len(s); {
 		if s[i] == 0x0c && i+1 < len(s) {
 			l := int(s[i+1])
-			if l > 40 && i+2+l <= len(s) {
-				out = append(out, 0x0c, byte(l))
+			if i+2+l <= len(s) {
+				if nameLike(s[i+2 : i+2+l]) {
+					out = append(out, s[i:i+2+l]...)
+				} else {
+					out = append(out, 0x0c, byte(l))
+				}
 				i += 2 + l
 				continue
 			}
